@@ -512,6 +512,13 @@ func TestVerif_C18_EmptySelection(t *testing.T) {
 			}
 		}
 	}
+	// a mapper registered for the token type EOF is for that type only
+	res.Evaluations++
+	if p, err := participle.Build[r6Call](participle.Upper("EOF")); err != nil {
+		res.violate("Upper(\"EOF\"): Build: %v", err)
+	} else if v, err := p.ParseString("", `f(a, b)`); err != nil || v.Name != "f" || fmt.Sprint(v.Args) != "[a b]" {
+		res.violate("Upper(\"EOF\") changed ordinary tokens: parsed %v %v", v, err)
+	}
 	res.emit(t)
 }
 
